@@ -458,6 +458,31 @@ theorem step_spec (g : Geo) (hh : 0 < g.h) (hw : 0 < g.w) (s : St) (hs : Good g 
     simp only [step, accStep]
     refine ⟨⟨wf_zeros g, fun _ i' j' => by simp [get_zeros]⟩, ?_⟩
     simp [Rep, get_zeros]
+  | roundtrip relabel =>
+    simp only [step, accStep, readArr]
+    by_cases hf : s.frame = []
+    · have hfe : s.frame.isEmpty = true := by simpa using hf
+      simp only [hfe, if_true]
+      have hc : s.clusters = [] := by simp [St.clusters, hf]
+      refine ⟨⟨hs.wf, fun _ => hs.nonneg hf⟩, ?_⟩
+      cases relabel <;> simp [Rep, hf, hc, labelFrom]
+    · have hfe : s.frame.isEmpty = false := by simpa using hf
+      simp only [hfe, if_false, Bool.false_eq_true]
+      have hc : s.clusters ≠ [] := by
+        intro e; apply hf; simpa [St.clusters] using e
+      refine ⟨⟨(dfToArray_spec g s.clusters 0 0).1, ?_⟩, ?_⟩
+      · intro hnil
+        cases relabel
+        · exact absurd hnil hf
+        · simp only [if_true] at hnil
+          exact absurd (labelFrom_eq_nil.mp hnil) hc
+      · cases relabel
+        · simp [Rep, hf, St.clusters]
+        · simp only [Rep, if_true, labelFrom_eq_nil]
+          have e : ({ arr := dfToArray g s.clusters, frame := s.frame, nextid := s.nextid } : St).clusters = s.clusters := rfl
+          simp only [e, hc, if_false, hf]
+          show credit g (i, j) ((labelFrom 0 s.clusters).map (·.2)) = _
+          rw [labelFrom_map]
 
 /-- **Charge is accounted identically as arrays and as clusters.**  For every history of
 non-negative array additions, cluster additions, reads and resets — in any interleaving and of any
@@ -506,6 +531,24 @@ theorem readd_same_array (g : Geo) (hh : 0 < g.h) (hw : 0 < g.w) (a b : Grid)
     · exact ha0
     · exact hb0
     · exact ha0
+
+/-- **Rebuilding the detector from its dictionary or from a saved file does not change the reported
+charge** (in any state: arrays only, clusters, clusters after removals), for all four detector
+classes — in particular clusters are not counted a second time on top of the saved array. -/
+theorem roundtrip_keeps_report (g : Geo) (s : St) (relabel : Bool) :
+    report g (step g s (.roundtrip relabel)).1 = report g s ∧
+    (step g s (.roundtrip relabel)).1.clusters = s.clusters := by
+  simp only [step, readArr]
+  by_cases hf : s.frame = []
+  · have hfe : s.frame.isEmpty = true := by simpa using hf
+    have hc : s.clusters = [] := by simp [St.clusters, hf]
+    cases relabel <;> simp [report, readArr, hf, labelFrom, St.clusters]
+  · have hfe : s.frame.isEmpty = false := by simpa using hf
+    have hc : s.clusters ≠ [] := by
+      intro e; apply hf; simpa [St.clusters] using e
+    cases relabel
+    · simp [report, readArr, hfe, St.clusters]
+    · simp [report, readArr, hfe, St.clusters, labelFrom_map]
 
 /-- the array returned by a read has the detector's shape in every state satisfying the invariant -/
 theorem report_wf (g : Geo) (s : St) (hs : Good g s) : Wf g (report g s) := by
